@@ -218,12 +218,12 @@ def guniverse(u):
 class Driver:
     """Generates a history while running hugr-py, so that node arguments are mostly live."""
 
-    def __init__(self, rng, root=6, allow_insert=True, maxoff=2):
+    def __init__(self, rng, root=6, allow_insert=True, maxoff=2, allow_bad=True):
         from hugr.hugr import Hugr
         OPS, _, _ = palette()
         self.rng, self.h, self.ops = rng, Hugr(OPS[root]), []
         self.allow_insert, self.maxoff, self.root_k = allow_insert, maxoff, root
-        self.dead = False
+        self.dead, self.allow_bad = False, allow_bad and allow_insert
 
     def live(self):
         return [n.idx for n in self.h]
@@ -272,7 +272,7 @@ class Driver:
             for _ in range(r.randint(0, 8)):
                 sub.step()
             return ["Insert", sub.root_k, r.randrange(4), sub.ops, r.choice(live + [None])]
-        if not self.allow_insert:
+        if not self.allow_bad:
             return ["AddLink", self.port(live), self.port(live)]
         # malformed / out of the guard (ends the history): dead or never-existing node, non-leaf deletion
         self.dead = True
